@@ -14,6 +14,13 @@ canonical form `xv.canon.canon_attr_strict` (never calls __eq__/__hash__/the pri
             unregistered attribute and type names, generated and corpus attributes are parsed / constructed in several
             Contexts, then the same texts are parsed again in the old and in fresh Contexts and through the constructors;
             all results must be ==, hash-equal, found in sets/dicts (bounded or wrongly keyed memoisation shows here).
+  irdl      every IRDL-described dialect (xdsl/dialects/*.irdl, corpus, an inline one) is instantiated several times in
+            one process; the same texts / constructor arguments against every load; eq/hash/set/dict laws over all pairs
+            (same load: must be equal; across loads: equal or unequal, but consistently and always eq => same hash).
+  purity    construction must be a pure function of its arguments: a fixed request list (+-0.0, values rounding to
+            them, subnormal boundaries, NaN payloads for every float type, equal-under-== bool/int/float payloads;
+            constructors, parser, dense) is run in a different order in every shard; FloatAttr payload bits are compared
+            with an independent reference rounding, and every request must give ONE result across all shards.
   cse       downstream: modules of pure ops / arith.constant whose attributes are near-duplicates; after the real CSE
             pass every use must still see an op whose attributes are canonically the ones it saw before."""
 from __future__ import annotations
@@ -571,6 +578,348 @@ def check_interleaved_history(rng, R, n_other, harvested, checkpoints):
         R.bump("history_checkpoints")
 
 
+# ------------------------------------------------------------------ IRDL-defined dialects loaded several times
+_IRDL_INLINE = """
+builtin.module {
+  irdl.dialect @xvdyn {
+    irdl.type @box {
+      %0 = irdl.any
+      irdl.parameters(elem: %0)
+    }
+    irdl.type @pair {
+      %0 = irdl.any
+      %1 = irdl.any
+      irdl.parameters(first: %0, second: %1)
+    }
+    irdl.type @unit {
+    }
+  }
+}
+"""
+
+
+def _irdl_sources():
+    """(label, text) of every IRDL dialect description found: xdsl/dialects/*.irdl, corpus chunks with irdl.dialect, and
+    an inline one with unconstrained parameters."""
+    import glob
+    import os
+    out = [("inline:xvdyn", _IRDL_INLINE)]
+    for f in sorted(glob.glob(os.path.join(corpus.REPO, "xdsl", "dialects", "*.irdl"))):
+        out.append((os.path.relpath(f, corpus.REPO), open(f).read()))
+    for rel, idx, text in corpus.chunks():
+        if "irdl.dialect" in text:
+            out.append((f"{rel}#{idx}", text))
+    return out
+
+
+def _load_irdl(text, skip_names=()):
+    """One load: parse the description in a fresh context and run the IRDL interpreter -> [(ctx, Dialect)] where ctx
+    has the new dialect registered (instead of a builtin factory of the same name)."""
+    from xdsl.context import Context
+    from xdsl.dialects import get_all_dialects
+    from xdsl.dialects.irdl import DialectOp
+    from xdsl.interpreters.irdl import make_dialect
+    pctx = new_ctx(False)
+    module = Parser(pctx, text).parse_module()
+    loads = []
+    for op in module.walk():
+        if isinstance(op, DialectOp):
+            d = make_dialect(op)
+            ctx = Context(allow_unregistered=False)
+            for n, f in get_all_dialects().items():
+                if n != d.name:
+                    ctx.register_dialect(n, f)
+            ctx.register_dialect(d.name, lambda d=d: d)
+            loads.append((ctx, d))
+    return loads
+
+
+def check_irdl_multi_load(rng, R, n_loads=3):
+    """Every IRDL-described dialect is instantiated n_loads times in this process.  The same attribute texts are parsed
+    against each load (twice per context, plus in a second context sharing the same load) and built through the
+    generic constructor; then the eq / hash / set / dict laws are checked over ALL pairs.  Same-load pairs of the same
+    value must be equal; cross-load pairs may be equal or unequal, but consistently, and always eq => equal hashes."""
+    params_pool = [bi.f32, bi.f64, bi.i32, bi.i1, bi.IndexType(), bi.IntegerAttr(1, bi.i32), bi.StringAttr("s"),
+                   bi.TensorType(bi.f32, [2])]
+    for label, text in _irdl_sources():
+        try:
+            all_loads = [_load_irdl(text) for _ in range(n_loads)]
+        except Exception as e:  # noqa: BLE001 - invalid / unsupported descriptions in the corpus (C17-ish), counted
+            R.bump("irdl_sources_not_loadable_skipped")
+            R.sets["irdl_skip_reasons"].add(f"{type(e).__name__}")
+            continue
+        ndial = min(len(x) for x in all_loads)
+        for di in range(ndial):
+            loads = [x[di] for x in all_loads]
+            d0 = loads[0][1]
+            R.bump("irdl_dialects_loaded")
+            R.bump("irdl_loads", len(loads))
+            R.sets["irdl_dialects"].add(d0.name)
+            # texts: built against load 0 by trial construction
+            texts = []
+            types0 = [a for a in d0.attributes if issubclass(a, ParametrizedAttribute)]
+            built0 = []
+            for cls in types0:
+                k = len(cls.get_irdl_definition().parameters)
+                got = 0
+                for _try in range(60):
+                    ps = [rng.choice(params_pool + built0[-4:]) for _ in range(k)]
+                    try:
+                        a = cls.new(ps)
+                    except Exception:  # noqa: BLE001 - constraint of the description rejects these parameters
+                        continue
+                    built0.append(a)
+                    texts.append((str(a), cls.name, ps if not any(type(p).__module__ == "xdsl.ir.core" for p in ps) else None))
+                    got += 1
+                    if got >= (1 if k == 0 else 5):
+                        break
+            seen = set()
+            texts = [t for t in texts if not (t[0] in seen or seen.add(t[0]))]
+            for t, _n, _p in list(texts)[:8]:
+                texts.append((f"tensor<2x{t}>", None, None))
+                texts.append((f"[{t}, 1 : i32]", None, None))
+                texts.append((f"({t}) -> tuple<{t}>", None, None))
+            pool = []  # (attr, load index, how)
+            for li, (ctx, d) in enumerate(loads):
+                ctx_b = None
+                for t, cname, ps in texts:
+                    try:
+                        pool.append((Parser(ctx, t).parse_attribute(), li, "parse"))
+                        pool.append((Parser(ctx, t).parse_attribute(), li, "parse-again"))
+                        if ctx_b is None:
+                            from xdsl.context import Context
+                            from xdsl.dialects import get_all_dialects
+                            ctx_b = Context()
+                            for n, f in get_all_dialects().items():
+                                if n != d.name:
+                                    ctx_b.register_dialect(n, f)
+                            ctx_b.register_dialect(d.name, lambda d=d: d)
+                        pool.append((Parser(ctx_b, t).parse_attribute(), li, "parse-second-context-same-load"))
+                    except Exception:  # noqa: BLE001 - text of a dynamic type that does not re-parse (C05/C06 territory)
+                        R.bump("irdl_texts_unparsable_skipped")
+                        continue
+                    if ps is not None and cname is not None:
+                        cls = next(a for a in d.attributes if a.name == cname)
+                        pool.append((cls.new(list(ps)), li, "constructor"))
+            R.bump("irdl_pool_members", len(pool))
+            _laws_multi_load(pool, f"{label}:{d0.name}", R)
+
+
+def _laws_multi_load(pool, label, R):
+    n = len(pool)
+    canons = [canon(a) for a, _l, _h in pool]
+    hashes = [hash(a) for a, _l, _h in pool]
+    eq = [[False] * n for _ in range(n)]
+    cross = {}
+    for i in range(n):
+        a, la, _ = pool[i]
+        if (a == a) is not True or (a != a) is not False:
+            R.viol(f"irdl-multi-load:not-reflexive:{a.name}", "a == a is not True", [a], text=label)
+        eq[i][i] = True
+        for j in range(i + 1, n):
+            b, lb, _ = pool[j]
+            e1, e2, ne = a == b, b == a, a != b
+            R.bump("irdl_pairs_compared")
+            if bool(e1) != bool(e2):
+                R.viol(f"irdl-multi-load:eq-not-symmetric:{a.name}", f"a==b is {e1}, b==a is {e2}", [a, b], text=label)
+            if bool(ne) == bool(e1):
+                R.viol(f"irdl-multi-load:ne-inconsistent-with-eq:{a.name}", f"a==b is {e1}, a!=b is {ne}", [a, b], text=label)
+            e = bool(e1)
+            eq[i][j] = eq[j][i] = e
+            same = canons[i] == canons[j]
+            if e and not same:
+                for k in classify_eq_but_differs(a, b):
+                    R.viol("irdl-multi-load:" + k, "a == b although their payloads differ", [a, b], text=label)
+            if e and hashes[i] != hashes[j]:
+                R.viol(f"irdl-multi-load:eq-but-hash-differs:{'cross-load' if la != lb else 'same-load'}:{a.name}",
+                       f"a == b (loads {la} and {lb} of the same IRDL dialect) but hash(a) != hash(b)", [a, b], text=label)
+            if e and ((b not in {a}) or {a: 1}.get(b) != 1):
+                R.bump("irdl_set_dict_misses")
+            if same and la == lb:
+                R.bump("irdl_same_load_same_value_pairs")
+                R.nontrivial.add(shash(("irdl", label, shash(canons[i]), pool[i][2], pool[j][2])))
+                if not e:
+                    R.viol(f"irdl-multi-load:same-load-same-value-not-equal:{a.name}",
+                           "the same text / parameters against ONE load of an IRDL dialect give unequal attributes", [a, b], text=label)
+            if same and la != lb:
+                R.bump("irdl_cross_load_same_value_pairs")
+                R.bump("irdl_cross_load_pairs_equal" if e else "irdl_cross_load_pairs_unequal")
+                cross.setdefault(a.name, set()).add(e)
+    for name, outcomes in cross.items():
+        if len(outcomes) > 1:
+            R.viol(f"irdl-multi-load:cross-load-equality-inconsistent:{name}",
+                   "some cross-load pairs of the same value are equal and others are not", [], text=label)
+    for b in range(n):
+        cls = [i for i in range(n) if eq[b][i]]
+        for x in range(len(cls)):
+            for y in range(x + 1, len(cls)):
+                R.bump("irdl_transitivity_triples")
+                if not eq[cls[x]][cls[y]]:
+                    R.viol(f"irdl-multi-load:eq-not-transitive:{pool[b][0].name}", "a == b and b == c but a != c",
+                           [pool[cls[x]][0], pool[b][0], pool[cls[y]][0]], text=label)
+    s = set(a for a, _l, _h in pool)
+    for a, _l, _h in pool:
+        if a not in s:
+            R.viol(f"irdl-multi-load:set-loses-member:{a.name}", "inserted attribute not found in the set", [a], text=label)
+
+
+# ------------------------------------------------------------------ construction is a pure function of its arguments
+# (exponent bits, mantissa bits, bias, has negative zero) - written down independently of xDSL's FloatSemantics
+_FLOAT_FORMATS = {"f16": (5, 10, 15, True), "bf16": (8, 7, 127, True), "f32": (8, 23, 127, True), "tf32": (8, 10, 127, True),
+                  "f8E5M2": (5, 2, 15, True), "f8E4M3": (4, 3, 7, True), "f8E4M3FN": (4, 3, 7, True),
+                  "f8E5M2FNUZ": (5, 2, 16, False), "f8E4M3FNUZ": (4, 3, 8, False), "f8E4M3B11FNUZ": (4, 3, 11, False),
+                  "f8E3M4": (3, 4, 3, True), "f6E2M3FN": (2, 3, 1, True), "f6E3M2FN": (3, 2, 3, True),
+                  "f4E2M1FN": (2, 1, 1, True)}
+
+
+def ref_round(v, fmt):
+    """Reference round-to-nearest-even of a finite double onto the grid of a binary float format (exact rational
+    arithmetic); only used well inside the finite range.  -> python float (with the sign of zero)."""
+    from fractions import Fraction
+    e, m, bias, negzero = fmt
+    if v == 0:
+        return v if negzero else 0.0
+    x = abs(Fraction(v))
+    ex = x.numerator.bit_length() - x.denominator.bit_length()
+    if Fraction(2) ** ex > x:
+        ex -= 1
+    q = Fraction(2) ** (max(ex, 1 - bias) - m)
+    k = x / q
+    n = k.numerator // k.denominator
+    rem = k - n
+    if rem > Fraction(1, 2) or (rem == Fraction(1, 2) and n % 2 == 1):
+        n += 1
+    r = float(n * q)
+    if r == 0 and not negzero:
+        return 0.0
+    return -r if v < 0 else r
+
+
+def purity_requests(seed):
+    """Deterministic list of (request id, thunk) - the same in every shard; thunks build attributes through constructors
+    and the parser.  Request ids describe the arguments exactly."""
+    reqs = []
+    ftypes = [bi.f16, bi.bf16, bi.f32, bi.f64, bi.tf32, bi.f8E5M2, bi.f8E4M3, bi.f8E4M3FN, bi.f8E5M2FNUZ, bi.f8E4M3FNUZ,
+              bi.f8E4M3B11FNUZ, bi.f8E3M4, bi.f8E8M0FNU, bi.f6E2M3FN, bi.f6E3M2FN, bi.f4E2M1FN, bi.f80, bi.f128]
+    nans = [0x7FF8000000000000, 0xFFF8000000000000, 0x7FF8000000000001, 0x7FF4000000000000, 0xFFFFFFFFFFFFFFFF]
+    for ty in ftypes:
+        vals = [0.0, -0.0, 1e-30, -1e-30, 1e-300, -1e-300, 5e-324, -5e-324, 1.0, -1.0, 1.5, -1.5, 0.1, -0.1, 2.0, 0.75, 3.0]
+        fmt = _FLOAT_FORMATS.get(ty.name)
+        if fmt:
+            e, m, bias, _nz = fmt
+            s = 2.0 ** (1 - bias - m)  # smallest subnormal
+            mn = 2.0 ** (1 - bias)     # smallest normal
+            for x in (s, s / 2, s / 2 * (1 + 2 ** -20), s * 0.75, s * 1.5, s * 2.5, mn, mn * (1 - 2.0 ** (-m - 1)),
+                      mn - s, 1 + 2.0 ** (-m - 1), 1 + 3 * 2.0 ** (-m - 1), 1 + 2.0 ** -m, s / 4):
+                vals += [x, -x]
+        for v in vals:
+            if ty.name == "f8E8M0FNU" and v < 0:
+                continue
+            reqs.append((f"FloatAttr({v!r}, {ty.name})", ("float", v, ty)))
+        for u in nans:
+            reqs.append((f"FloatAttr(nan:0x{u:016x}, {ty.name})", ("float", genattr.f64_from_bits(u), ty)))
+        if ty.name not in ("f80", "f128"):
+            for v in (0.0, -0.0, 1e-30, -1e-30):
+                if ty.name == "f8E8M0FNU" and v != 0.0 and v < 0:
+                    continue
+                reqs.append((f"parse({v:.17e} : {ty.name})", ("parse", f"{v:.17e} : {ty.name}")))
+                reqs.append((f"dense([{v!r}, 1.0], {ty.name})", ("dense", [v, 1.0], ty)))
+                reqs.append((f"densearray([{v!r}], {ty.name})", ("array", [v], ty)))
+    for txt in ("0x7e01 : f16", "0xfe00 : f16", "0x7fc00001 : f32", "0xffc00000 : f32", "0x7ff8000000000001 : f64", "0x7fc1 : bf16",
+                "dense<[0.0, -0.0]> : tensor<2xf32>", "dense<[-0.0, 0.0]> : tensor<2xf32>", "dense<-0.0> : tensor<2xf16>",
+                "dense<0.0> : tensor<2xf16>", "array<f32: 0.0, -0.0>", "array<f32: -0.0, 0.0>", "true", "1 : i1", "-1 : i1",
+                "1 : i32", "1.0 : f32", "1 : index", "0 : i32", "0.0 : f32", "-0.0 : f32", "0 : i64", "false"):
+        reqs.append((f"parse({txt})", ("parse", txt)))
+    # equal-under-== python payloads
+    for tag, mk in (("IntAttr(True)", lambda: bi.IntAttr(True)), ("IntAttr(1)", lambda: bi.IntAttr(1)),
+                    ("IntAttr(False)", lambda: bi.IntAttr(False)), ("IntAttr(0)", lambda: bi.IntAttr(0)),
+                    ("FloatData(1)", lambda: bi.FloatData(1)), ("FloatData(1.0)", lambda: bi.FloatData(1.0)),
+                    ("FloatData(True)", lambda: bi.FloatData(True)), ("FloatData(0)", lambda: bi.FloatData(0)),
+                    ("FloatData(0.0)", lambda: bi.FloatData(0.0)), ("FloatData(-0.0)", lambda: bi.FloatData(-0.0)),
+                    ("IntegerAttr(True, i1)", lambda: bi.IntegerAttr(True, bi.i1)), ("IntegerAttr(1, i1)", lambda: bi.IntegerAttr(1, bi.i1)),
+                    ("IntegerAttr(-1, i1)", lambda: bi.IntegerAttr(-1, bi.i1)), ("IntegerAttr(True, i32)", lambda: bi.IntegerAttr(True, bi.i32)),
+                    ("IntegerAttr(1, i32)", lambda: bi.IntegerAttr(1, bi.i32)), ("IntegerAttr(False, i32)", lambda: bi.IntegerAttr(False, bi.i32)),
+                    ("IntegerAttr(0, i32)", lambda: bi.IntegerAttr(0, bi.i32)), ("IntegerAttr(255, i8)", lambda: bi.IntegerAttr(255, bi.i8)),
+                    ("IntegerAttr(-1, i8)", lambda: bi.IntegerAttr(-1, bi.i8)), ("FloatAttr(1, f32)", lambda: bi.FloatAttr(1, bi.f32)),
+                    ("FloatAttr(True, f32)", lambda: bi.FloatAttr(True, bi.f32)), ("FloatAttr(0, f16)", lambda: bi.FloatAttr(0, bi.f16)),
+                    ("FloatAttr(False, f16)", lambda: bi.FloatAttr(False, bi.f16)),
+                    ("BoolAttr.from_bool(True)", lambda: bi.BoolAttr.from_bool(True)),
+                    ("VectorType(f32,[2])", lambda: bi.VectorType(bi.f32, [2]))):
+        reqs.append((tag, ("thunk", mk)))
+    return reqs
+
+
+def _typed_canon(a):
+    """canonical form + python types of all Data payload leaves (bool / int / float are distinguished here)."""
+    kinds = tuple(type(n.data).__name__ for n, _p, _s in genattr.walk(a) if isinstance(n, Data) and not isinstance(n.data, tuple))
+    return (canon(a), kinds)
+
+
+def check_construction_purity(job, R):
+    """Runs the request list in a shard-specific order (even shards: as listed, i.e. +0.0 before -0.0; odd shards:
+    reversed; then once more shuffled).  In-process oracle: the payload bits of FloatAttr must be the reference rounding
+    of the requested value (sign of zero included) and a request must give the same result each time.  Cross-process
+    oracle (decided in finish): every request id must give ONE result over all shards, whatever their order."""
+    reqs = purity_requests(job["seed"])
+    order1 = list(reqs) if job["shard"] % 2 == 0 else list(reversed(reqs))
+    order2 = list(reqs)
+    random.Random(f"purity:{job['seed']}:{job['shard']}").shuffle(order2)
+    ctx = new_ctx(True)
+    results = {}
+    for rid, spec in order1 + order2:
+        try:
+            if spec[0] == "float":
+                a = bi.FloatAttr(spec[1], spec[2])
+            elif spec[0] == "parse":
+                a = Parser(ctx, spec[1]).parse_attribute()
+            elif spec[0] == "dense":
+                a = bi.DenseIntOrFPElementsAttr.from_list(bi.TensorType(spec[2], [len(spec[1])]), spec[1])
+            elif spec[0] == "array":
+                a = bi.DenseArrayBase.from_list(spec[2], spec[1])
+            else:
+                a = spec[1]()
+        except (OverflowError, ValueError, NotImplementedError) as e:
+            sig = f"raises {type(e).__name__}"
+            a = None
+        R.bump("purity_constructions")
+        sig = shash(_typed_canon(a)) if a is not None else sig
+        if rid in results and results[rid][0] != sig:
+            R.viol(f"construction-result-changes-within-process:{spec[0]}",
+                   f"{rid} gives different results at two points of one process history", [x for x in (results[rid][1], a) if x is not None],
+                   text=rid)
+        results.setdefault(rid, (sig, a))
+        if spec[0] == "float" and a is not None:
+            v, ty = spec[1], spec[2]
+            got = a.value.data
+            fmt = _FLOAT_FORMATS.get(ty.name)
+            want = None
+            if math.isnan(v) and ty.name in ("f6E2M3FN", "f6E3M2FN", "f4E2M1FN"):
+                pass  # finite-only formats have no NaN: the constructor saturates by design (cross-shard purity still applies)
+            elif math.isnan(v):
+                if not math.isnan(got):
+                    R.viol(f"floatattr-construction-wrong-value:{ty.name}", f"{rid} holds {got!r}", [a], text=rid)
+                elif ty.name in ("f64", "f80", "f128"):
+                    want = v
+            elif ty.name in ("f64", "f80", "f128"):
+                want = v
+            elif fmt and abs(v) < 2.0 ** (2 ** fmt[0] - 3 - fmt[2]):
+                want = ref_round(v, fmt)
+                if ty.name == "bf16":
+                    # documented semantics of BFloat16Type: the double is first narrowed to binary32, then rounded to
+                    # bf16 (double rounding; differs from direct rounding only within 2^-149 of a tie)
+                    want = ref_round(ref_round(v, _FLOAT_FORMATS["f32"]), fmt)
+            if want is not None:
+                R.bump("purity_reference_comparisons")
+                if genattr.f64_bits(got) != genattr.f64_bits(want):
+                    R.viol(f"floatattr-construction-differs-from-requested-value:{ty.name}",
+                           f"{rid} holds {got!r} (bits {genattr.f64_bits(got):#018x}), the reference rounding of the argument is "
+                           f"{want!r} (bits {genattr.f64_bits(want):#018x})", [a], text=rid)
+                else:
+                    R.nontrivial.add(shash(("purity", rid)))
+    R.sets["purity"] = {f"{rid}|{sig}" for rid, (sig, _a) in results.items()}
+    R.bump("purity_requests", len(results))
+
+
 # ------------------------------------------------------------------ CSE downstream
 def check_cse(rng, R, n_modules):
     from xdsl.dialects import arith
@@ -642,7 +991,8 @@ class Rec:
     def __init__(self, job):
         self.job = job
         self.counters = {}
-        self.sets = {"twoctx_classes": set(), "pool_classes": set(), "corpus_dialects": set(), "group_classes": set()}
+        self.sets = {"twoctx_classes": set(), "pool_classes": set(), "corpus_dialects": set(), "group_classes": set(),
+                     "irdl_dialects": set(), "irdl_skip_reasons": set()}
         self.violations = []
         self.nontrivial = set()
         self.per_key = {}
@@ -677,6 +1027,9 @@ def plan(tier, seed):
     # one directed job: corpus-wide same-class groups (quick: every second chunk)
     jobs.append({"seed": seed, "kind": "groups", "shard": seed % 3 if tier == "quick" else 0,
                  "nshards": 3 if tier == "quick" else 1, "corpus_chunks": 100000})
+    # directed job: IRDL-described dialects instantiated several times in one process
+    jobs.append({"seed": seed, "kind": "irdl", "shard": 0, "nshards": 1000000, "corpus_chunks": 0,
+                 "loads": 3 if tier == "quick" else 5})
     # directed job: long interleaved history between two uses of the same text / constructor arguments
     jobs.append({"seed": seed, "kind": "history", "shard": seed % 8, "nshards": 8 if tier == "quick" else 4,
                  "corpus_chunks": 40 if tier == "quick" else 400, "history": 5000 if tier == "quick" else 60000})
@@ -696,6 +1049,10 @@ def work(job):
     if job.get("kind") == "groups":
         check_class_groups(harvested, rng, R)
         return {"evaluations": R.counters.get("group_pairs_compared", 0), "nontrivial": sorted(R.nontrivial), "samples": [],
+                "counters": R.counters, "sets": {k: sorted(v) for k, v in R.sets.items()}, "violations": R.violations}
+    if job.get("kind") == "irdl":
+        check_irdl_multi_load(rng, R, job["loads"])
+        return {"evaluations": R.counters.get("irdl_pairs_compared", 0), "nontrivial": sorted(R.nontrivial), "samples": [],
                 "counters": R.counters, "sets": {k: sorted(v) for k, v in R.sets.items()}, "violations": R.violations}
     if job.get("kind") == "history":
         n = job["history"]
@@ -721,6 +1078,7 @@ def work(job):
     check_two_contexts_generated(rng, R, job["twoctx"])
     check_two_contexts_corpus(job["shard"], job["nshards"], job["corpus_chunks"], R)
     check_cse(rng, R, job["cse"])
+    check_construction_purity(job, R)
     if job.get("history"):
         check_interleaved_history(rng, R, job["history"], harvested, [150, job["history"]])
     return {"evaluations": R.counters.get("pairs_compared", 0) + R.counters.get("twoctx_pairs", 0) + R.counters.get("cse_uses_checked", 0)
@@ -732,6 +1090,19 @@ def work(job):
 def finish(agg, tier):
     inc = []
     c = agg.counters
+    # cross-process purity: one result per request id, whatever the construction order of the shard
+    by_req = {}
+    for entry in agg.sets.get("purity", ()):
+        rid, sig = entry.rsplit("|", 1)
+        by_req.setdefault(rid, set()).add(sig)
+    c["purity_request_ids_compared_across_shards"] = len(by_req)
+    for rid, sigs in sorted(by_req.items()):
+        if len(sigs) > 1:
+            c["purity_cross_shard_conflicts"] = c.get("purity_cross_shard_conflicts", 0) + 1
+            agg.violations.append({"key": "construction-depends-on-process-history:" + rid.split("(")[0],
+                                   "summary": f"{rid} gives {len(sigs)} different results in shards that construct the same "
+                                              "requests in different orders", "witness": {"request": rid, "results": sorted(sigs)}})
+    agg.sets["purity"] = {f"{len(by_req)} request ids"}
     q = tier == "quick"
     for k, need in (("pairs_compared", 300000 if q else 2e7), ("equal_pairs", 1000 if q else 80000),
                     ("nontrivial_pairs", 3000 if q else 200000), ("transitivity_triples", 1000 if q else 40000),
@@ -739,6 +1110,9 @@ def finish(agg, tier):
                     ("group_pairs_compared", 1500 if q else 4000), ("class_groups", 40 if q else 80),
                     ("history_interleaved_lookups", 6000 if q else 100000), ("history_comparisons", 1200 if q else 8000),
                     ("history_checkpoints", 15 if q else 100),
+                    ("purity_reference_comparisons", 3000 if q else 20000), ("purity_request_ids_compared_across_shards", 800),
+                    ("irdl_dialects_loaded", 2), ("irdl_pairs_compared", 5000), ("irdl_same_load_same_value_pairs", 200),
+                    ("irdl_cross_load_same_value_pairs", 300),
                     ("cse_uses_checked", 2000 if q else 100000), ("cse_ops_merged", 200 if q else 5000),
                     ("corpus_distinct_attrs_harvested", 500), ("lookups_through_equal_copy", 200 if q else 20000)):
         if c.get(k, 0) < need:
